@@ -16,7 +16,8 @@ RULE = ("S-syn listings (lower-case hex addresses incl. add0/dec0-style ones, mn
         "first covered record (strict); (c) for rules without times / different-length alternatives the hit covers exactly "
         "one record per instruction item (strict); (d) the hit window is an R-dsl window with @any = 'non-empty field' "
         "(differential; open finding F7 is attributed with the quirk model). Non-trivial = at least one hit was located; "
-        "distinct = (rule, listing).")
+        "distinct = (rule, listing). "
+        "Operand span cells: one-item rules with $deref names / degenerate field combinations on instructions with two memory operands (every hit is one record, nothing reaches into the next operand); a parser disagreement on a synthetic listing is turned into a two-item rule around the missing line.")
 FLOOR = {"quick": 300, "thorough": 4000}
 ANCHOR_HINTS = ["global_definitions", "mnemonic_and_operand", "node_branch_root", "consumer", "capture_group_instruction"]
 REQUIRED_EVENTS = ["hits_aligned", "addresses_checked"]
